@@ -10,7 +10,7 @@ import itertools
 from vt.scan.c12_gdump import (G_SIGNAL_RUN_FIRST, G_SIGNAL_RUN_LAST, G_SIGNAL_RUN_CLEANUP,
                                G_SIGNAL_NO_RECURSE, G_SIGNAL_DETAILED, G_SIGNAL_ACTION,
                                G_SIGNAL_NO_HOOKS, G_SIGNAL_MUST_COLLECT)
-from vt.scan.c12_oracle import uscore, PREFIX
+from vt.scan.c12_oracle import uscore, snake, PREFIX
 
 GOBJ = ['GObject-2.0']
 GIO = ['GObject-2.0', 'Gio-2.0']
@@ -602,6 +602,59 @@ def q_build(p):
     return lib.finish(reverse=bool(order))
 
 
+# ============================ N: CamelCase names of error enumerations ===
+# FooDBusError <-> foo_dbus_error_quark etc.: consecutive capitals, digits, acronym runs
+N_NAMES = ['ParseError', 'DBusError', 'URIError', 'IOError', 'X11Error', 'Error2', 'HTTPSError', 'Utf8Error',
+           'GLError', 'Base64URLError']
+N_KIND = ['cenum', 'registered', 'registered-odd-symbol', 'flags']
+N_QUARK = ['match', 'each-capital', 'other', 'joined']
+
+
+def n_params(tier):
+    for ni in range(len(N_NAMES)):
+        for ki in range(len(N_KIND)):
+            for qi in range(len(N_QUARK)):
+                if N_QUARK[qi] == 'each-capital' and uscore(N_NAMES[ni]) == snake(N_NAMES[ni]):
+                    continue                      # same spelling as 'match'
+                for decoy in (0, 1, 2):
+                    for di in (0, 1):
+                        for order in (0, 1):
+                            yield (ni, ki, qi, decoy, di, order)
+
+
+def n_build(p):
+    ni, ki, qi, decoy, di, order = p
+    name, kind = N_NAMES[ni], N_KIND[ki]
+    cname = PREFIX + name
+    up = snake(name).upper()
+    lib = Lib(GOBJ)
+    mem = [['FOO_%s_A' % up, 1], ['FOO_%s_B' % up, 2]]
+    if kind == 'cenum':
+        lib.decls.append(['enum', cname, mem])
+    else:
+        lib.register(dict(k='flags' if kind == 'flags' else 'enum', name=cname,
+                          values=[[mem[0][0], 'a', 1], [mem[1][0], 'b', 2]]))
+        lib.decls.append(['enum', cname, mem, kind == 'flags'])
+        lib.get_type(cname, symbol=('foo_%s_get_type' % snake(name)) if kind != 'registered-odd-symbol'
+                     else 'foo_%s_get_type' % name.lower())
+    lib.new_block()
+    if decoy == 1:
+        lib.decls.append(['enum', 'FooOtherError', [['FOO_OTHER_ERROR_A', 0]]])
+    elif decoy == 2:
+        # a second plain enumeration with a conventional name and its own quark function
+        lib.decls.append(['enum', 'FooSecondError', [['FOO_SECOND_ERROR_A', 0]]])
+        lib.func('foo_second_error_quark', 'GQuark', [])
+        lib.scn['quarks']['foo_second_error_quark'] = 'foo-second-error-quark'
+    lib.new_block()
+    stem = {'match': snake(name), 'each-capital': uscore(name), 'other': 'unrelated_error',
+            'joined': name.lower()}[N_QUARK[qi]]
+    lib.func('foo_%s_quark' % stem, 'GQuark', [])
+    lib.scn['quarks']['foo_%s_quark' % stem] = DOMAINS[di]
+    lib.new_block()
+    lib.klass('FooObj', 'GObject', class_members=[])
+    return lib.finish(reverse=bool(order))
+
+
 # ================================================ U: out-of-format dumps ===
 # Things gdump.c can never print; executed for robustness, every touched fact UNSPECIFIED.
 U_PATCH = [
@@ -689,6 +742,8 @@ FAMILIES = [
     ('E', e_params, e_build, 'enum/flags'),
     ('F', f_params, f_build, 'non-GObject fundamentals'),
     ('Q', q_params, q_build, 'error quarks vs enum names'),
+    ('N', n_params, n_build, 'error enumeration names with acronyms/digits x plain/registered/odd symbol/flags x quark '
+                             'function spelled conventionally / cut at every capital / unrelated / without underscores'),
     ('M', m_params, m_build, 'mixed: chain + properties + signal + boxed + quark in one namespace'),
     ('U', u_params, u_build, 'out-of-format dumps (UNSPECIFIED)'),
 ]
